@@ -12,3 +12,4 @@ import Props.C02
 #print axioms C02.unreachable_drop_sound
 #print axioms C02.trailing_continue_sound
 #print axioms C02.reorder_not_equiv
+#print axioms C02.boolop_values_preserves
